@@ -1,7 +1,7 @@
 from algo_prop import make
 ALGOS = ["T_HOO", "HCT", "VHCT", "SOO", "DOO", "StoSOO", "SequOOL", "StroquOOL", "VROOM", "Zooming", "POO", "GPO"]
 LEAN_EXTRA = ["PyXABProofs.Generated.FormulasC04", "PyXABProofs.Props.C08", "PyXABProofs.Props.C11", "PyXABProofs.Props.C12", "PyXABProofs.Props.C13", "PyXABProofs.Props.StroquOOL"]
-budget, explore, search, replay = make("C04", ALGOS, quick_per_algo=10, thorough_per_algo=80, salt=400, long_runs=__import__("props.C05", fromlist=["LONG"]).LONG)
+budget, explore, search, replay = make("C04", ALGOS, quick_per_algo=10, thorough_per_algo=60, salt=400, long_runs=__import__("props.C05", fromlist=["LONG"]).LONG)
 RULE = ("the documented pull/receive loop on the real classes: algorithm x partition class (K 2..5) x dimension 1..3 x box shape x "
         "parameters from the documented ranges x ten reward modes (dyadic noise, all-negative, zero, constant, few-valued ties, "
         "alternating sign, large, objective+noise) x five split-fraction modes, 20..150 rounds, time labels t0+i, recommendation "
